@@ -266,8 +266,16 @@ fn run_merger(files: &[Rc<Vec<u8>>], kind: MergeKind, into_writer: bool, out_con
 }
 
 fn run_sorter(conf: &SConf, kind: MergeKind, inserts: &[(Vec<u8>, Vec<u8>)], exit: u8, out_conf: &WConf, j: &mut Judge) -> Option<()> {
-    let mut b = grenad::Sorter::builder(MF::with_ctl(kind, j.ctl.clone())).chunk_creator(Creator { ctl: j.ctl.clone() });
-    conf.apply(&mut b);
+    // `chunk_creator` is one more commuting setter: for order >= 6 it is called after the others
+    let b = if conf.order >= 6 {
+        let mut b0 = grenad::Sorter::builder(MF::with_ctl(kind, j.ctl.clone()));
+        conf.apply(&mut b0);
+        b0.chunk_creator(Creator { ctl: j.ctl.clone() })
+    } else {
+        let mut b = grenad::Sorter::builder(MF::with_ctl(kind, j.ctl.clone())).chunk_creator(Creator { ctl: j.ctl.clone() });
+        conf.apply(&mut b);
+        b
+    };
     let mut s = b.build();
     for (k, v) in inserts {
         j.call("Sorter::insert", || s.insert(k, v))?;
